@@ -49,7 +49,7 @@ def evaluate(i, scn):
     W.check_single(ck, scn, sw, m, tag=cls.__name__)
     count = {cls.__name__: 1}
     # ExtendedEOF with a single embedding must be the same analysis (shares C01's statement)
-    if c["dtype"] == "real" and i % 3 == 0 and not sw.lat and c["wp"] == "ones":
+    if c["dtype"] == "real" and i % 3 == 0 and not sw.lat and c["wp"] == "ones" and not c.get("constmode"):   # ExtendedEOF always centres
         m2 = W.fit_eof(xe.single.ExtendedEOF, sw, X, weights=None, tau=1, embedding=1)
         ev1, ev2 = np.asarray(m.explained_variance().values), np.asarray(m2.explained_variance().values)
         ok = len(ev1) == len(ev2) and np.allclose(ev1, ev2, rtol=1e-7, atol=1e-9 * max(ev1.max(), 1e-300))
